@@ -26,13 +26,14 @@ def check(run):
         n = inout.check_function(run, repo, f, {'clifford_rotate'})
         bind.check_function_calls(run, repo, f, only={'clifford_rotate'})
         parallel.mask_expansion(run, f)
+        parallel.masked_selection(run, repo, f, {'clifford_rotate'})
         calls = [c for c, t, h in repo.callees(f) if h == 'name' and t[0].name == 'clifford_rotate']
         if len(calls) < 2:
             run.undecided('R5', f, 'rotate_by', 'expected a masked and an unmasked call of clifford_rotate')
         # the generator's string AND phase are passed (rotating by -G must differ from rotating by G)
         gen = f.posparams[1]
         for c in calls:
-            args = [norm(a) for a in c.args]
+            args = K.actual_texts(repo.resolve_local(f, 'clifford_rotate'), c)
             run.check('%s.g' % gen in args and '%s.p' % gen in args, 'R6.gen', f, c,
                       'rotate_by must pass both the string and the phase of the generator to the kernel')
         f = repo.func(rel, 'Pauli.rotate_by')
@@ -85,6 +86,7 @@ def check(run):
     run.floor('R7.untouched', 6)
     run.floor('R7e', 4)
     run.floor('R5', 6)
+    run.floor('R13.masksel', 2)
     run.floor('R13.mask', 2)
     run.floor('R2', 12)
     run.decide('rotation kernels (py loop form, torch masked form, signless twins): guard is acq(G,P), phase '
